@@ -25,6 +25,7 @@ import (
 	"sort"
 	"strings"
 	"sync"
+	"sync/atomic"
 	"time"
 
 	"github.com/blevesearch/bleve/v2"
@@ -469,6 +470,7 @@ func run(c *core.Ctx) error {
 	jobs := make(chan qcase, 256)
 	var wg sync.WaitGroup
 	var statMu sync.Mutex
+	var slow int64 // queries abandoned after 20 s
 	kinds := map[string]int{}
 	for w := 0; w < 6; w++ {
 		wg.Add(1)
@@ -477,7 +479,29 @@ func run(c *core.Ctx) error {
 			for q := range jobs {
 				for _, eng := range engines {
 					q.Eng = eng
-					got, err := execute(idx[eng], g, q, len(ds.ids))
+					if atomic.LoadInt64(&slow) >= 8 {
+						continue // the covering computation has degenerated: the remaining queries are skipped
+					}
+					// a query answers in milliseconds; one that takes longer than the budget is
+					// abandoned (counted, never a verdict) so that the others are still decided
+					type answer struct {
+						got []string
+						err error
+					}
+					ach := make(chan answer, 1)
+					go func(q qcase) {
+						got, err := execute(idx[eng], g, q, len(ds.ids))
+						ach <- answer{got, err}
+					}(q)
+					var got []string
+					var err error
+					select {
+					case a := <-ach:
+						got, err = a.got, a.err
+					case <-time.After(20 * time.Second):
+						atomic.AddInt64(&slow, 1)
+						continue
+					}
 					c.Eval(1)
 					if err != nil {
 						c.Violation("c18/"+q.Kind+"/error", fmt.Sprintf("%s on %s: %v", q.key(), eng, err), q)
@@ -536,6 +560,12 @@ func run(c *core.Ctx) error {
 		}
 		c.Inconclusive("TLC did not pass GeoGridMC/" + cfg + ": " + strings.SplitN(txt, "\n", 3)[0])
 		return nil
+	}
+	if n := atomic.LoadInt64(&slow); n > 0 {
+		c.Extra("queries_abandoned_after_20s", n)
+		if c.Violations() == 0 {
+			c.Inconclusive(fmt.Sprintf("%d geo queries did not answer within 20 s (they answer in milliseconds on a sound tree); nothing else failed", n))
+		}
 	}
 	c.Logf("model GeoGridMC/%s: %d distinct states, %d query states replayed on %d engines %v", cfg, res.Distinct, nStates, len(engines), kinds)
 	c.Traces(nStates)
